@@ -138,19 +138,49 @@ def run(ctx):
     ctx.floor("R-C07-R", 400)
 
 
+def _emitted_names(ctx, mod, fi, arg):
+    """String constants an add_result argument may denote: a literal, or a local bound from a module-level
+    constant table (``T[...]`` / ``T.get(...)``) whose values are strings."""
+    if isinstance(arg, ast.Constant) and isinstance(arg.value, str):
+        return [arg.value]
+    if not isinstance(arg, ast.Name):
+        return None
+    out = []
+    for n in ast.walk(fi.node):
+        if isinstance(n, ast.Assign) and any(isinstance(t, ast.Name) and t.id == arg.id for t in n.targets):
+            v = n.value
+            tab = None
+            if isinstance(v, ast.Subscript) and isinstance(v.value, ast.Name):
+                tab = v.value.id
+            elif isinstance(v, ast.Call) and isinstance(v.func, ast.Attribute) and v.func.attr == "get" and isinstance(v.func.value, ast.Name):
+                tab = v.func.value.id
+            if tab is None or tab not in mod.globals:
+                return None
+            try:
+                d = mod.const(tab)
+            except Exception:
+                return None
+            if not isinstance(d, dict) or not all(isinstance(x, str) for x in d.values()):
+                return None
+            out += list(d.values())
+    return out or None
+
+
 def rule_name_closure(ctx, mod, sh, mean):
     R = "R-C07-1"
     for rname in RECOGNISERS:
         fi = mod.func(rname)
         for n in ast.walk(fi.node):
-            if isinstance(n, ast.Call) and isinstance(n.func, ast.Name) and n.func.id == "add_result" and n.args \
-                    and isinstance(n.args[0], ast.Constant) and isinstance(n.args[0].value, str):
-                name = n.args[0].value
-                ok = name in sh and name in mean
-                ctx.check(ok, R, "%s emits %r" % (rname, name), fi.where(n), "add_result(%r)" % name,
-                          "the recogniser emits %r which is %s: the long form raises KeyError and from_shorthand rejects the answer"
-                          % (name, " and ".join(x for x, c in (("not constructible (no chord_shorthand row)", name not in sh),
-                                                                ("without a meaning (no chord_shorthand_meaning row)", name not in mean)) if c)))
+            if isinstance(n, ast.Call) and isinstance(n.func, ast.Name) and n.func.id == "add_result" and n.args:
+                names = _emitted_names(ctx, mod, fi, n.args[0])
+                if names is None:
+                    continue  # computed name: R-C07-R judges the answers themselves
+                for name in names:
+                    ok = name in sh and name in mean
+                    ctx.check(ok, R, "%s emits %r" % (rname, name), fi.where(n), "add_result(%r)" % name,
+                              "the recogniser emits %r which is %s: the long form raises KeyError and from_shorthand rejects the answer"
+                              % (name, " and ".join(x for x, c in (("not constructible (no chord_shorthand row)", name not in sh),
+                                                                    ("without a meaning (no chord_shorthand_meaning row)", name not in mean)) if c)))
 
 
 def rule_ordinals(ctx, mod):
@@ -285,6 +315,24 @@ def rule_recognition(ctx, mod, sh, mean, model):
                             found = (i, suffix)
                     if ok and found is None:
                         ok, why = False, "no answer rebuilds the chord: %s" % [short(repr(x), 40) for x in sv][:6]
+                    if ok:
+                        # the answers must be accepted by the constructor itself (not only have a known suffix)
+                        ffi = mod.func("from_shorthand")
+                        for nm in ([sv[found[0]]] + [x for k_, x in enumerate(sv) if k_ != found[0]][:(len(sv) if thorough else 1)]):
+                            if split_poly(its, nm) if isinstance(nm, AbsStr) else False:
+                                continue
+                            # an interval result stands for its letter with some accidentals: give the constructor that shape
+                            if isinstance(nm, AbsStr):
+                                nm = AbsStr([AbsStr([a.head, nd.acc_run("A%d" % k_)]) if isinstance(a, NoteVal) else a for k_, a in enumerate(its.norm_str(nm).atoms)])
+                            try:
+                                bps = paths_of(ctx.repo, ffi, lambda nm=nm: [nm], summaries=model, max_depth=40)
+                            except (CannotDecide, nd.Shape) as e:
+                                raise AnalysisError("from_shorthand(%s): %s" % (short(repr(nm), 60), e))
+                            badp = [q for q in bps if q.kind != "return" or not isinstance(q.value, list)]
+                            if badp or not bps:
+                                ok, why = False, "the answer %s is rejected by from_shorthand: %s %r" % (
+                                    short(repr(nm), 60), badp[0].kind if badp else "no outcome", badp[0].value if badp else None)
+                                break
                     if ok:
                         i, suffix = found
                         lp = parse_name(itl, lv[i])
